@@ -13,6 +13,7 @@ import plsscorr
 
 # foreign words: >= 4 alphanumerics, not a keyword of any pattern; endings chosen to collide with the cull words
 WORDS = ['ZZZQ', 'QQXJ7', 'XENOLITH', 'BASIN', 'MARGIN', 'THEREOF', 'BATHE', 'KOALL', 'OVERLAND', 'Franklin', 'wherein', 'Proof', 'QAND', 'zzthe']
+SHORT_WORDS = ['QXZ', 'XQ7', 'ZQJ', 'QX', 'Q']   # 3 characters: the shortest that must still be reported; 1-2: see known finding C04-short-unused
 MODES = ['', 'segment', 'sec_within', 'sec_colon_required', 'sec_colon_cautious', 'TRS_desc', 'desc_STR', 'copy_all', 'segment,sec_within', 'ocr_scrub']
 PM_RGX = re.compile(r'(P\.?\s*M\.?|Principal\s+Meridian|Meridian)', re.I)
 
@@ -50,7 +51,7 @@ def run(tier, mode):
             base = r.choice(['Beginning text ', 'Deed of record: ']) + base + r.choice(['', ' and the remainder', ', Williams County'])
         bounds = token_boundaries(base)
         for pos in (bounds if tier == 'thorough' and i % 4 == 0 else r.sample(bounds, min(len(bounds), 5))):
-            w = r.choice(WORDS)
+            w = r.choice(SHORT_WORDS) if r.random() < 0.3 else r.choice(WORDS)
             left = base[:pos]
             sep_l = '' if (not left or left[-1].isspace()) else ' '
             text = left + sep_l + w + ' ' + base[pos:]
@@ -75,7 +76,9 @@ def run(tier, mode):
             # known: a word starting with N/S/E/W placed directly after a township or range number that lacks its direction
             # letter loses that first letter to the Twp/Rge match (the rest of the word stays)
             dir_letter = w[0].lower() in 'nsew' and bool(re.search(r'\d\W{0,3}$', before)) and (where_is(w[1:], d) is not None)
-            kid = 'C04-pm-gap' if in_pm_gap else ('C04-direction-letter' if dir_letter else None)
+            # known: an unused block shorter than MIN_REPORTABLE_UNUSED_LEN (4, counting its surrounding blanks) is not reported, so a 1-2 character word is lost
+            # (with sec_within the block is stripped first, so a 3-character word is lost too)
+            kid = 'C04-pm-gap' if in_pm_gap else ('C04-direction-letter' if dir_letter else ('C04-short-unused' if (len(w) <= 2 or (len(w) == 3 and 'sec_within' in cfg)) else None))
             fails.append({'kind': 'word_lost', 'detail': {'text': text, 'word': w, 'config': cfg}, 'got': repr([(t.trs, t.desc) for t in d.tracts][:3]) + ' e_flags=' + repr(d.e_flags)[:120],
                           'want': f'{w} in a tract desc or an unused_desc flag', 'known_id': kid})
     # the known finding, probed explicitly
@@ -90,13 +93,19 @@ def run(tier, mode):
     if not where_is('wherein', d):
         fails.append({'kind': 'word_lost', 'detail': {'text': t, 'word': 'wherein', 'config': ''}, 'got': repr([(x.trs, x.desc) for x in d.tracts]), 'want': 'wherein kept',
                       'known_id': 'C04-direction-letter' if where_is('herein', d) else None})
+    for t, w, kid in [('Q T154N-R97W Sec 14: NE/4', 'Q', 'C04-short-unused'), ('T154N-R97W QXZ Sec 14: NE/4', 'QXZ', None), ('QXZ T154N-R97W Sec 14: NE/4', 'QXZ', None),
+                      ('Sec 14: NE/4, T154N-R97W QXZ', 'QXZ', None), ('T154N-R97W ALL Sec 14: NE/4', 'ALL', None)]:
+        d = pytrs.PLSSDesc(t)
+        n_or += 1
+        if not where_is(w, d):
+            fails.append({'kind': 'word_lost', 'detail': {'text': t, 'word': w, 'config': ''}, 'got': repr([(x.trs, x.desc) for x in d.tracts]) + ' e_flags=' + repr(d.e_flags), 'want': w + ' kept', 'known_id': kid})
     parts = {}
     if mode != 'search':
         parts['model_vs_code'] = plsscorr.run(tier, 'c04', extra_texts=texts[:150 if tier == 'quick' else 2000], configs=MODES, functions=False, n=20 if tier == 'quick' else 200)
     parts['oracle_on_code'] = {
         'evaluations': n_or, 'distinct_nontrivial': len(nontriv), 'impl_failures': fails, 'n_impl_failures': len(fails), 'distribution': dist,
         'rule': 'valid and damaged descriptions (some with text before the first / after the last Twp/Rge) x insertion of a foreign word (14 words incl. ones ending in the '
-                'cull words) at token boundaries x parse modes: the word must occur in some tract desc or in an unused_desc error flag; non-trivial = the word was found',
+                'cull words, plus 1-3 character words) at token boundaries x parse modes: the word must occur in some tract desc or in an unused_desc error flag; non-trivial = the word was found',
         'samples': [{'text': 'T154N-R97W Sec 14: NE/4 BASIN, Sec 15: W/2', 'config': 'segment'}]}
     return merge(parts)
 
